@@ -435,6 +435,19 @@ def _choose_arms(alt, leaf):
             rest = [x for d, x in arms if isinstance(d, tuple) and d[0] == 'pat' and (d[1] == '_' or not (d[1].startswith('Ok') or d[1].startswith('Err')))]
             if rest:
                 return rest[:1]
+    # a match on a tuple of integers: `match (prefix % 4, prefix >> 2) { (3, 0) => .., (3, _) => .., .. }`
+    if isinstance(sc, tuple) and sc and sc[0] == 'tuple' and any(isinstance(d, tuple) and len(d) > 3 for d, _ in arms):
+        comps = [eval_expr(c_, leaf) for c_ in sc[1]]
+        if all(c_ is not None for c_ in comps):
+            for d, x in arms:
+                if isinstance(d, tuple) and d[0] == 'pat' and len(d) > 3 and len(d[3]) == len(comps):
+                    if all(pi is None or any(lo <= cv <= hi for lo, hi in pi) for pi, cv in zip(d[3], comps)):
+                        return [x]
+                elif isinstance(d, tuple) and d[0] == 'pat' and d[2] is None and (d[1] == '_' or d[1].startswith('_')):
+                    return [x]
+                elif isinstance(d, tuple) and d[0] == 'guard':
+                    return [y for _, y in arms]
+            return []
     sv = eval_expr(scrut, leaf)
     if sv is None:
         return [x for _, x in arms]
